@@ -21,7 +21,7 @@ ATOMS = ['a', ' ', '\n', '{', '}', '[', ']', '$', '%', '~', '\\', '\\(', '\\)', 
          '\\x', '\\begin', '\\end', '\\begin{e}', '\\end{e}', '`', '-', '\t']
 EXTRA = ['b', '\xa0', "'", '&', '*', '|', '\\begin {e*}', '\\end\n{e}', '\\begin{}', '\\beginx', '\\endy ', '\\ab  ',
          '\\ab \n\n', '\\ab\n \n', '$$', '#', '##', '@', '@x', '\r', '\x0b', '\u2028', '\u3000', '\x1c', '\\@', '<', '>',
-         '\\begin{e', '\\begin{e f}', '\\1', 'é', '\U0001d504', '``', "''", '---', '?`', '!`']
+         '\\begin{e', '\\begin{e f}', '\\1', 'é', '\ufeff', '\u200b', '\x00', '\U0001d504', '``', "''", '---', '?`', '!`']
 
 SK_DEFAULT = ['~', '&', '\n\n', '``', "''", '--', '---', '!`', '?`']
 
@@ -101,6 +101,13 @@ def cases(tier, rng):
         n = rng.randint(2, 7)
         s = ''.join(rng.choice(WSA) for _ in range(n))
         yield {'k': 'tok', 's': s, 'ps': rng.choice(BASE_PS), 'tol': rng.random() < 0.5, 'ops': std_ops(n)}
+    # unusual first characters (byte order mark, zero-width space, NUL, no-break space, form feed): the reader starts at 0 whatever is there
+    for first in ['\ufeff', '\u200b', '\x00', '\xa0', '\x0c', '\ufeff\ufeff', '\ufeff ', ' \ufeff']:
+        for rest in ['', 'a', '\\x', '{a}', ' a', '\n\na', '%c\n', '$x$', '\\begin{e}']:
+            for ps in BASE_PS[:2]:
+                for tol in (False, True):
+                    n = 3
+                    yield {'k': 'tok', 's': first + rest, 'ps': ps, 'tol': tol, 'ops': std_ops(n)}
     m = 6000 if tier == 'quick' else 120000
     allatoms = ATOMS + EXTRA
     for _ in range(m):
